@@ -442,7 +442,11 @@ def written (d : Delivery) (a : Ans) (merged : Bool) : Content :=
   | .pad _ n valid => .pad n valid
   | .txs _ =>
     let mine := (txValid d).map (·.t)
-    .txs (union mine (match loc with | some (.txs l) => if txMergesLocal then l else [] | _ => []))
+    -- the merge is a `BTreeSet<Transaction>`: it is the set union of *transactions* (ids stand for whole
+    -- transactions, every field included) only if ordering/equality of `Transaction` are the derived ones
+    if txOrdDerived then
+      .txs (union mine (match loc with | some (.txs l) => if txMergesLocal then l else [] | _ => []))
+    else .txs mine
   | .reg _ b ops =>
     if merged then
       match loc with
